@@ -17,8 +17,10 @@ import (
 	"errors"
 	"flag"
 	"fmt"
+	"hash/fnv"
 	"os"
 	"sync"
+	"sync/atomic"
 	"time"
 
 	"go.brendoncarroll.net/p2p"
@@ -43,11 +45,17 @@ func (a Any) String() string               { return a.A.String() }
 // eTell adapts a p2p.Swarm[A] to p2p.SecureSwarm[Any, any]
 type eTell[A p2p.Addr] struct {
 	s p2p.Swarm[A]
+	// sent counts the packets handed to s (set for the adapters of the base transport only)
+	sent *atomic.Int64
 }
 
 func (e eTell[A]) Tell(ctx context.Context, dst Any, v p2p.IOVec) error {
+	if e.sent != nil {
+		e.sent.Add(1)
+	}
 	return e.s.Tell(ctx, dst.A.(A), v)
 }
+
 // Receive hands the layer above a private scratch copy of the payload and overwrites it as soon as the
 // callback returns (the most hostile legal behaviour of an inner swarm: p2p.Receiver allows the message to
 // be used only until fn returns), so that an alias kept by a layer shows up as a corrupted delivery.
@@ -76,6 +84,7 @@ func (p *poisonSrc) swap(cur []byte) []byte {
 }
 
 var lastPacket = &poisonSrc{}
+
 func (e eTell[A]) LocalAddrs() []Any {
 	var out []Any
 	for _, a := range e.s.LocalAddrs() {
@@ -175,7 +184,7 @@ func wrap(n node, L Layer, idx int) (node, error) {
 		return node{sw: s, ask: s}, nil
 	case "p2pke":
 		s := p2pkeswarm.New[Any](n.sw, testKey(idx))
-		return node{sw: eTell[p2pkeswarm.Addr[Any]]{s}}, nil
+		return node{sw: eTell[p2pkeswarm.Addr[Any]]{s: s}}, nil
 	case "str":
 		c := string(toBytes(L.C))
 		if n.ask != nil {
@@ -220,8 +229,10 @@ type stack struct {
 	a, b    node
 	closers []func()
 	cancel  context.CancelFunc
-	got     chan []byte // payloads seen by b's Receive callback
-	asked   chan []byte // request payloads seen by b's ServeAsk callback
+	sent    *atomic.Int64 // packets endpoint a handed to the base transport
+	qlen    int           // receive queue length of the base transport (vswarm drops when it is full)
+	got     chan []byte   // payloads seen by b's Receive callback
+	asked   chan []byte   // request payloads seen by b's ServeAsk callback
 }
 
 func (s *stack) close() {
@@ -233,11 +244,11 @@ func (s *stack) close() {
 
 func build(sc StackCase, sizeCap int) (*stack, error) {
 	var a, b node
-	st := &stack{got: make(chan []byte, 1<<17), asked: make(chan []byte, 1024)}
+	st := &stack{got: make(chan []byte, 1<<17), asked: make(chan []byte, 1024), sent: &atomic.Int64{}}
 	// parts that may be in flight at once on the base transport
 	minPart := sc.Inner - 24
-	if minPart < 8 {
-		minPart = 8
+	if minPart < 1 {
+		minPart = 1
 	}
 	qlen := sizeCap/minPart + 64
 	if qlen > 70000 {
@@ -250,16 +261,18 @@ func build(sc StackCase, sizeCap int) (*stack, error) {
 	case "vswarm":
 		r := memswarm.NewSecureRealm[string](memswarm.WithMTU(sc.Inner), memswarm.WithQueueLen(qlen))
 		sa, sb := r.NewSwarm("a"), r.NewSwarm("b")
-		ea := eAsk[memswarm.Addr]{eTell[memswarm.Addr]{sa}, sa}
-		eb := eAsk[memswarm.Addr]{eTell[memswarm.Addr]{sb}, sb}
+		ea := eAsk[memswarm.Addr]{eTell[memswarm.Addr]{s: sa, sent: st.sent}, sa}
+		eb := eAsk[memswarm.Addr]{eTell[memswarm.Addr]{s: sb}, sb}
+		st.qlen = qlen
 		a, b = node{sw: ea, ask: ea}, node{sw: eb, ask: eb}
 		st.closers = append(st.closers, func() { sa.Close(); sb.Close() })
 	case "netsim":
 		nt := netsim.NewNet(sc.Inner)
 		nt.Loop = true
 		sa, sb := nt.Node(1), nt.Node(2)
-		ea := eAsk[netsim.Addr]{eTell[netsim.Addr]{sa}, sa}
-		eb := eAsk[netsim.Addr]{eTell[netsim.Addr]{sb}, sb}
+		ea := eAsk[netsim.Addr]{eTell[netsim.Addr]{s: sa, sent: st.sent}, sa}
+		eb := eAsk[netsim.Addr]{eTell[netsim.Addr]{s: sb}, sb}
+		st.qlen = 1 << 30 // netsim never drops
 		a, b = node{sw: ea, ask: ea}, node{sw: eb, ask: eb}
 		st.closers = append(st.closers, func() { sa.Close(); sb.Close() })
 	default:
@@ -297,7 +310,7 @@ func build(sc StackCase, sizeCap int) (*stack, error) {
 			for {
 				if err := b.ask.ServeAsk(ctx, func(ctx context.Context, resp []byte, m p2p.Message[Any]) int {
 					st.asked <- append([]byte{}, m.Payload...)
-					return copy(resp, "pong")
+					return copy(resp, answer(m.Payload))
 				}); err != nil {
 					return
 				}
@@ -322,6 +335,14 @@ func errClass(err error) string {
 
 const magic = 0xC09C095A
 
+// answer is what the harness' ServeAsk handler replies: a digest of the request payload it was handed, so
+// that the asker can tell whether the answer it got belongs to the request it sent.
+func answer(req []byte) []byte {
+	h := fnv.New64a()
+	h.Write(req)
+	return h.Sum([]byte("ans:"))
+}
+
 // payload builds the bytes of case `tag`: when there is room the first 8 bytes identify the case, so
 // that a payload (or a prefix of it) that arrives late is attributed to the case that sent it.
 func payload(size, tag int) []byte {
@@ -337,16 +358,21 @@ func payload(size, tag int) []byte {
 }
 
 type result struct {
-	Size   int    `json:"size"`
-	Op     string `json:"op"`
-	Mtu    int    `json:"mtu"`
-	Err    string `json:"err"`
-	Nd     int    `json:"nd"`
-	Eq     bool   `json:"eq"`
-	Other3 bool   `json:"other3"`
-	Dlen   []int  `json:"dlen"`
-	Detail string `json:"detail,omitempty"`
-	tag    int
+	Size    int    `json:"size"`
+	Op      string `json:"op"`
+	Mtu     int    `json:"mtu"`
+	Err     string `json:"err"`
+	Nd      int    `json:"nd"`
+	Eq      bool   `json:"eq"`
+	Other3  bool   `json:"other3"`
+	Part    bool   `json:"part"`  // some delivery is a proper part of the payload sent
+	Lostc   bool   `json:"lostc"` // accepted, not delivered (twice), control payload delivered
+	Ans     string `json:"ans,omitempty"`
+	checked int
+	pkts    int    // packets handed to the base transport during the exchange
+	Dlen    []int  `json:"dlen"`
+	Detail  string `json:"detail,omitempty"`
+	tag     int
 }
 
 // session runs the cases of one stack and attributes every payload the receiver saw to its case
@@ -369,6 +395,12 @@ func (se *session) attribute(d []byte, cur *result, curData []byte) {
 	r.Nd++
 	if !bytes.Equal(d, data) {
 		r.Eq = false
+		if r.checked < 4 && len(d) > 0 && len(d) < len(data) {
+			r.checked++
+			if bytes.Contains(data, d) {
+				r.Part = true
+			}
+		}
 	}
 	if len(r.Dlen) < 4 {
 		r.Dlen = append(r.Dlen, len(d))
@@ -390,7 +422,10 @@ func (se *session) drain(cur *result, curData []byte) {
 }
 
 // one performs one Tell / Ask of `size` bytes
-func (se *session) one(size int, op string, tag int) *result {
+func (se *session) one(size int, op string, tag int) *result { return se.oneW(size, op, tag, 1) }
+
+// oneW: patience multiplies the time an accepted in-range payload is given to arrive
+func (se *session) oneW(size int, op string, tag int, patience int) *result {
 	st := se.st
 	var last *result
 	var lastData []byte
@@ -406,10 +441,21 @@ func (se *session) one(size int, op string, tag int) *result {
 	dst := st.b.sw.LocalAddrs()[0]
 	ctx, cf := context.WithTimeout(context.Background(), 15*time.Second)
 	var err error
+	sent0 := st.sent.Load()
+	defer func() { r.pkts = int(st.sent.Load() - sent0) }()
 	if op == "tell" {
 		err = st.a.sw.Tell(ctx, dst, p2p.IOVec{data})
 	} else {
-		_, err = st.a.ask.Ask(ctx, make([]byte, 64), dst, p2p.IOVec{data})
+		resp := make([]byte, 64)
+		var n int
+		n, err = st.a.ask.Ask(ctx, resp, dst, p2p.IOVec{data})
+		if err == nil && size <= r.Mtu && (n < 0 || n > len(resp) || !bytes.HasPrefix(answer(data), resp[:n])) {
+			// the answer does not belong to the request that was sent (a layer may offer the handler a buffer
+			// shorter than the digest: a prefix is accepted)
+			r.Eq = false
+			r.Ans = "foreign"
+			r.Nd++
+		}
 	}
 	cf()
 	r.Err = errClass(err)
@@ -431,6 +477,7 @@ func (se *session) one(size int, op string, tag int) *result {
 			wait = 6 * time.Second
 		}
 	}
+	wait *= time.Duration(patience)
 	if err == nil && size > r.Mtu {
 		wait = 300 * time.Millisecond
 	}
@@ -485,6 +532,32 @@ func run(sc StackCase, w *trace.Writer, sizeCap int) error {
 						r.Other3 = false
 					}
 				}
+			}
+			if size <= r.Mtu && r.Err == "nil" && r.Nd == 0 && r.pkts <= se.st.qlen/2 {
+				// accepted, nothing arrived.  The base transports of the harness are lossless as long as the packets
+				// in flight fit the receive queue, so re-measure on a fresh stack with ten times the patience (>= 40x
+				// the healthy latency), then send a control payload: if that one arrives the layer lost (or never
+				// sent) the accepted payload.  Not judged when the payload needs more base packets than half the queue.
+				st2, err := build(sc, sizeCap)
+				if err != nil {
+					return err
+				}
+				se2 := &session{st: st2, byTag: map[int]*result{}}
+				r2 := se2.oneW(size, op, tag, 10)
+				if r2.Err == "nil" && r2.Nd == 0 && int(st2.sent.Load()) <= st2.qlen/2 {
+					ctl := 1
+					if size == 1 {
+						ctl = 0
+					}
+					rc := se2.oneW(ctl, op, tag+1000000, 10)
+					r.Lostc = rc.Err == "nil" && rc.Nd >= 1 && rc.Eq
+				} else if r2.Nd > 0 {
+					// it did arrive this time: keep what was seen (corruption included)
+					r.Nd, r.Eq, r.Part, r.Dlen = r2.Nd, r2.Eq, r2.Part, r2.Dlen
+				}
+				time.Sleep(5 * time.Millisecond)
+				se2.drain(nil, nil)
+				st2.close()
 			}
 			anomaly := (size > r.Mtu && (r.Err == "nil" || r.Nd > 0)) || (size <= r.Mtu && (r.Err != "nil" || r.Nd != 1 || !r.Eq))
 			if anomaly {
